@@ -86,7 +86,12 @@ macro_rules! slice_concat {
 pub const fn concat_sum_lengths<T>(slice: &[&[T]]) -> usize {
     let mut sum = 0usize;
     crate::for_range! {i in 0..slice.len() =>
-        sum += slice[i].len();
+        // only zero-sized types can overflow this,
+        // without this check the overflow wraps around in release builds.
+        sum = match sum.checked_add(slice[i].len()) {
+            Some(x) => x,
+            None => panic!("the length of the concatenated slice overflowed"),
+        };
     }
     sum
 }
